@@ -233,6 +233,25 @@ pub fn run_c18(seed: u64, thorough: bool) -> Vec<Value> {
     let id = ChannelId::new(mr, cr, &pk, mi, ci);
     let printed = id.to_string();
     let parsed: Result<ChannelId, _> = printed.parse();
+    // hostile channel-id text: a value or an error, never a panic
+    {
+        let long = format!("{}{}", printed, printed);
+        let cases: Vec<(String, String)> = vec![
+            ("one character appended".into(), format!("{}A", printed)),
+            ("two ids back to back".into(), long.clone()),
+            ("44 characters without padding (33 bytes)".into(), "A".repeat(44)),
+            ("empty".into(), String::new()),
+            ("not base64".into(), "!!!! not base64 !!!!".into()),
+            ("last character removed".into(), printed[..printed.len().saturating_sub(1)].to_string()),
+            ("1024 characters".into(), "QUJD".repeat(256)),
+            ("padding only".into(), "====".into()),
+        ];
+        for (name, text) in cases {
+            let r = catch_unwind(AssertUnwindSafe(|| text.parse::<ChannelId>().map(|p| p.to_bytes() == id.to_bytes())));
+            let o = match r { Ok(Ok(true)) => "same".to_string(), Ok(Ok(false)) => "other".into(), Ok(Err(_)) => "err".into(), Err(e) => format!("panic:{}", panic_message(e)) };
+            out.push(json!({"ev": "cidparse", "case": name, "out": o}));
+        }
+    }
     out.push(json!({"ev": "cid", "input": "print/parse", "variant": "round trip", "changed": parsed.map(|p| p.to_bytes() != id.to_bytes()).unwrap_or(true), "expect_changed": false}));
     out
 }
